@@ -41,6 +41,7 @@ type FuncSel struct {
 	ParamInvs  map[string]string `json:"param_invs"` // sweep: parameter type -> invariant over $p
 	Kinds      string `json:"kinds"`       // regexp on obligation kinds claimed for this selection (default: all)
 	NoFrame    bool   `json:"no_frame"`    // do not check the modifies frame (schematic contracts of generated code)
+	NoSafety   bool   `json:"no_safety"`   // do not generate the panic-freedom obligations of these functions (they belong to another property's check); nothing is assumed from them either
 	Ctx        string `json:"ctx"`         // verify against the contract that this package (import path) declares for the function (its environment model)
 	Why        string `json:"why"`
 }
@@ -256,10 +257,12 @@ func runCheck(prop, tier, repo, evdir string, verbose bool) int {
 			if fn.Synthetic != "" && !strings.Contains(fn.Synthetic, "instance") && !(fn.Name() == "init" && eng.contractForCtx(fn, sel.Ctx) != nil) {
 				continue // wrappers, thunks, bound methods: not source code (the package initialiser is, when it has a contract)
 			}
-			if seen[n] {
+			// the same function may be verified once per verification context (its own contract, and the environment model
+			// another package declares for it: selections with "ctx")
+			if seen[n+"@"+sel.Ctx] {
 				continue
 			}
-			seen[n] = true
+			seen[n+"@"+sel.Ctx] = true
 			matched++
 			jobs = append(jobs, job{fn: fn, sel: sel})
 		}
@@ -324,7 +327,7 @@ func runCheck(prop, tier, repo, evdir string, verbose bool) int {
 		if j.sel.Kinds != "" {
 			kindsRe, _ = regexp.Compile(j.sel.Kinds)
 		}
-		f := eng.GenVC(j.fn, VerifyOpts{SafetyOnly: j.sel.Mode == "sweep", AllocBound: j.sel.Alloc, NoFrame: j.sel.Mode == "sweep" || j.sel.NoFrame, ParamInvs: j.sel.ParamInvs, CtxPkg: j.sel.Ctx,
+		f := eng.GenVC(j.fn, VerifyOpts{SafetyOnly: j.sel.Mode == "sweep", AllocBound: j.sel.Alloc, NoFrame: j.sel.Mode == "sweep" || j.sel.NoFrame, ParamInvs: j.sel.ParamInvs, CtxPkg: j.sel.Ctx, NoSafety: j.sel.NoSafety,
 			NoAssume: func(name, kind string) bool {
 				// what this check does not claim is not assumed either: listed as not claimed, or of a kind outside the selection
 				if kindsRe != nil && !kindsRe.MatchString(kind) {
